@@ -73,7 +73,7 @@ func New(tag string) (*Pipe, error) {
 	}
 	sum, _ := os.ReadFile(filepath.Join(s.Repo, "go.sum"))
 	_ = os.WriteFile(filepath.Join(p.CorpusDir, "go.sum"), sum, 0o644)
-	seed := "package seed\n\nimport (\n\t_ \"context\"\n\t_ \"github.com/mazrean/kessoku\"\n\t_ \"golang.org/x/sync/errgroup\"\n)\n"
+	seed := "package seed\n\nimport (\n\t_ \"bytes\"\n\t_ \"strings\"\n\t_ \"text/template\"\n\t_ \"html/template\"\n\t_ \"context\"\n\t_ \"github.com/mazrean/kessoku\"\n\t_ \"golang.org/x/sync/errgroup\"\n)\n"
 	_ = os.MkdirAll(filepath.Join(p.CorpusDir, "seed"), 0o755)
 	_ = os.WriteFile(filepath.Join(p.CorpusDir, "seed", "seed.go"), []byte(seed), 0o644)
 	return p, nil
